@@ -12,6 +12,10 @@ Decided:
     two components of the dma_alloc result, page count from the argument); a zero physical address returns Err before
     the owner exists; Drop passes exactly those fields, in their positions, to dma_dealloc; no leak operation
     (mem::forget, ManuallyDrop, Box::leak) is applied to a value whose type contains the owner.
+ R5 no failure window after DRIVER_OK: in every driver constructor, once finish_init (DRIVER_OK) has been called every
+    path to a return passes through the construction of the driver value (whose drop order R1 / Drop impl quiesces the
+    device first); a `?`/early return between finish_init and that point would drop the constructor's local queues -
+    freeing their DMA memory - before the transport parameter is dropped (parameters are dropped after locals).
 Not decided: "every k" is not enumerated - R3/R4 make the statement independent of k.
 """
 from .common import *
@@ -21,7 +25,7 @@ from . import C05
 EXPLANATION = ("Drop order is computed from struct declarations (Rust drops fields in declaration order) with device-shared fields "
                "found by type and by flow of buffers into queue operands; RAII constructor/Drop of the DMA owner are path-enumerated; "
                "unwrap/expect operands are traced back to allocation-capable callees over the resolved call graph.")
-FLOORS = {'driver_structs': {'*': 12, 'noalloc': 4}, 'unwrap_sites_examined': {'*': 25, 'noalloc': 4}}
+FLOORS = {'constructors': {'*': 10, 'noalloc': 4}, 'driver_structs': {'*': 12, 'noalloc': 4}, 'unwrap_sites_examined': {'*': 25, 'noalloc': 4}}
 
 
 def transport_param_fields(F, adt):
@@ -39,6 +43,35 @@ def transport_param_fields(F, adt):
         if f['ty'] in tparams:
             out.append(f['name'])
     return out
+
+
+def r5_failure_window(F, R, drivers):
+    n = 0
+    for b in F.bodies.values():
+        if not F.handwritten(b) or b['kind'] != 'AssocFn' or b.get('impl_adt') not in drivers or 'impl_trait' in b:
+            continue
+        if not any(bl['term']['k'] == 'call' and bl['term'].get('trait') == TRANSPORT and bl['term'].get('method') == 'finish_init' for bl in b['blocks']):
+            continue
+        n += 1
+        sg = supergraph(F, b['id'], tag='flat', max_depth=0)
+        fis = [x for x in sg.calls(lambda d: d.get('trait') == TRANSPORT and d.get('method') == 'finish_init')]
+        aggs = [x.id for x in sg.nodes if x.kind == 'assign' and x.d['rv']['rv'] == 'agg' and x.d['rv'].get('adt') == b['impl_adt']]
+        where = fn_site(F, b['id'])
+        bad = None
+        for fi in fis:
+            r = sg.reach_fwd(list(fi.succ), avoid=aggs)
+            ex = [e for e in sg.exits if e in r]
+            if ex:
+                # name the fallible operation: the last call on such a path
+                calls = sorted((x for x in r if sg.nodes[x].kind == 'call' and sg.nodes[x].id != fi.id
+                                and any(e in sg.reach_fwd([x], avoid=aggs) for e in ex)), key=lambda x: sg.nodes[x].line)
+                names = [sg.nodes[x].d.get('fn', '?').rsplit('::', 2)[-2:] for x in calls
+                         if 'Try' not in sg.nodes[x].d.get('fn', '') and 'from_residual' not in sg.nodes[x].d.get('fn', '')]
+                bad = 'after finish_init (line %s) the constructor can return without having built %s (fallible: %s); its local queues are then freed while the device is live (DRIVER_OK, queue enabled) and the transport parameter is only dropped afterwards' % (
+                    fi.line, b['impl_adt'].rsplit('::', 1)[1], ', '.join('::'.join(x) for x in names[:3]) or '?')
+        R.check(bad is None, 'R5', '%s:after-driver-ok' % b['id'], where,
+                'every return after finish_init passes through the construction of the driver value', bad or '')
+    R.count('constructors', n)
 
 
 def run(F, R):
@@ -64,6 +97,7 @@ def run(F, R):
         inner = [f['name'] for f in a['variants'][0]['fields'] if any(m in drivers for m in f['mentions']) and f['ty'].split('<')[0] in drivers]
         if inner:
             wrappers[name] = inner
+    r5_failure_window(F, R, drivers)
     for name, carriers in list(drivers.items()) + list(wrappers.items()):
         R.count('driver_structs', 1)
         a = F.adts[name]
